@@ -235,6 +235,7 @@ theorem prefixLaw_kwRef (env : Env) {rec : Rec} (hrec : ∀ i s, PrefixLaw (rec 
 
 theorem prefixLawClosed (env : Env) : Closed env PrefixLaw where
   emit := prefixLaw_emit
+  nothing := ⟨fun _ _ _ => rfl, fun st k hk hle => by simp [nothing] at hle; omega⟩
   stop := fun s _ => prefixLaw_stopG s
   andThen := prefixLaw_andThen
   mapErrs := prefixLaw_mapErrs
@@ -347,6 +348,7 @@ theorem not_lawful_stopG_budget : ¬ Lawful (stopG .budget) :=
 /-- `Lawful` is closed under the generator combinators -/
 theorem lawfulClosed (env : Env) : Closed env Lawful where
   emit := lawful_emit
+  nothing := ⟨fun _ h => by simp [nothing] at h, fun _ _ _ => rfl, fun st k hk hle => by simp [nothing] at hle; omega⟩
   stop := fun _ hs => lawful_stopG hs
   andThen := lawful_andThen
   mapErrs := lawful_mapErrs
